@@ -59,7 +59,7 @@ FIXTURES = {
             "ext": [{"list_name": "cities", "name": "a", "label": "A", "state": "x"}, {"list_name": "cities", "name": "b", "state": "y"}]},
     "invalid": {"nodes": [{"k": "q", "c": {"type": "text", "name": "q1", "label": "see ${nosuch}"}}]},
 }
-FIXED_STDERR = [["l", "Something about the form"], ["p", "Problem near ", "/data/g/age", " here"], ["k", "Dependency cycle at ", "/html/body/input", "."],
+FIXED_STDERR = [["p", "Error: could not evaluate ", "/data/g/age", ""], ["l", "Something about the form"], ["p", "Problem near ", "/data/g/age", " here"], ["k", "Dependency cycle at ", "/html/body/input", "."],
                 ["x", "java.lang.RuntimeException: ", "wrapped message"], ["s", "\tat org.javarosa.core.Model.run(Model.java:12)"],
                 ["d", "duplicated line"], ["l", "Résultat: Invalid XPath"]]
 
@@ -125,6 +125,9 @@ def gen_lines(g):
         last_text = text
     if out[0][0] == "s":
         out.insert(0, ["l", "First line"])
+    if g.p("_", 0.3):
+        # validators often start with an 'Error: ' line; only the jar launcher's own 'Unable to access jarfile' text is passed through as is
+        out.insert(0, ["p", g.pick(["Error: ", "Error: evaluating field ", ">> Error: "]) + "bad node ", "/data/" + g.pick(SEGS) + "/" + g.pick(SEGS), ""])
     return out
 
 
